@@ -646,6 +646,52 @@ func c14LinesPoints(c *fw.Ctx, idx int) {
 			if !c14CheckCentF(c, "LinearRingsCentroid", g4, rx, ry, rtx, rty) {
 				return
 			}
+			// ... and through the generic entry point
+			var g5 geom.Coord
+			var err error
+			if c.Guard("panic", func() { g5, err = xy.Centroid(lr) }) {
+				return
+			}
+			if err != nil {
+				c.Fail("centroid-error", "Centroid(LinearRing): %v", err)
+				return
+			}
+			if !c14CheckCentF(c, "Centroid(LinearRing)", g5, rx, ry, rtx, rty) {
+				return
+			}
+			// several rings at once; the calculator fed with a polygon made of them
+			cl2 := append(append([]ipt{}, lines[nl-1]...), lines[nl-1][0])
+			if r2x, r2y, r2tx, r2ty, z2 := c14LineCentroid([][]ipt{cl, cl2}); !z2 {
+				lr2 := geom.NewLinearRingFlat(layout, c14Flat(cl2, stride, r))
+				var g6, g7 geom.Coord
+				if c.Guard("panic", func() {
+					g6 = xy.LinearRingsCentroid(lr, lr2)
+					poly := geom.NewPolygon(layout)
+					poly.Push(lr)
+					poly.Push(lr2)
+					g7 = xy.NewLineCentroidCalculator(layout).AddPolygon(poly).GetCentroid()
+				}) {
+					return
+				}
+				if !c14CheckCentF(c, "LinearRingsCentroid(2 rings)", g6, r2x, r2y, r2tx, r2ty) || !c14CheckCentF(c, "LineCentroidCalculator.AddPolygon", g7, r2x, r2y, r2tx, r2ty) {
+					return
+				}
+			}
+		}
+		// a single line through the generic entry point
+		if sx, sy, stx, sty, z := c14LineCentroid(lines[:1]); !z {
+			var g8 geom.Coord
+			var err error
+			if c.Guard("panic", func() { g8, err = xy.Centroid(ls[0]) }) {
+				return
+			}
+			if err != nil {
+				c.Fail("centroid-error", "Centroid(LineString): %v", err)
+				return
+			}
+			if !c14CheckCentF(c, "Centroid(LineString)", g8, sx, sy, stx, sty) {
+				return
+			}
 		}
 	}
 	// points
@@ -689,6 +735,28 @@ func c14LinesPoints(c *fw.Ctx, idx int) {
 			return
 		}
 	}
+	// one point through the generic entry point; the calculator fed point by point
+	var p5, p6 geom.Coord
+	var err error
+	if c.Guard("panic", func() {
+		p5, err = xy.Centroid(gpts[0])
+		calc := xy.NewPointCentroidCalculator()
+		for _, gp := range gpts {
+			calc.AddPoint(gp)
+		}
+		p6 = calc.GetCentroid()
+	}) {
+		return
+	}
+	if err != nil {
+		c.Fail("centroid-error", "Centroid(Point): %v", err)
+		return
+	}
+	one := func(v int64) *big.Rat { return new(big.Rat).SetInt64(v) }
+	if !c14CheckCent(c, "Centroid(Point)", p5, one(pts[0].x), one(pts[0].y), 4*c14u*float64(abs64(pts[0].x)), 4*c14u*float64(abs64(pts[0].y))) {
+		return
+	}
+	c14CheckCent(c, "PointCentroidCalculator.AddPoint", p6, pcx, pcy, ptx, pty)
 }
 
 func init() {
